@@ -93,8 +93,18 @@ SCENARIOS["S10"] = dict(threads=[main10, param_thread(2, 10, 6, 7, 8, 9), param_
                         mutexes=0, condvars=0, vars=14,
                         expect=[[0, 5], [0, 0], [0, 111], [0, 12], [0, 1000], [0, 2], [0, 121], [0, 22], [0, 1000], [0, 2]])
 
-QUICK = ["S9", "S10", "S1", "S3", "S4", "S5", "S6", "S7", "S8"]
-ALL = ["S9", "S10", "S1", "S2", "S3", "S4", "S5", "S6", "S7", "S8"]
+# S11: everybody is blocked, and the LAST thread to block waits untimed (on a condition variable); then a sleeper's deadline
+# (a few milliseconds of real time, deadline class 3) passes while another thread is still in a far-timed wait.  The sleeper must be resumed (it signals the condition variable),
+# whatever the order of the paused list.
+s11_main = [op(L, m=1), op("start", u=1), op("start", u=2), op("yield"), op("yield"), op("yield"),
+            op(L, m=0), op("brz", x=0, to=11), op(U, m=0), op("jmp", to=13), op(U, m=0, cv=0), op("jmp", to=7),
+            op(U, m=1), op("join", u=1), op("join", u=2), op(R, x=0), op("emit"), op(R, x=1), op("emit"), op("end")]
+s11_sleeper = [op("sleep", d=3), op(L, m=0), op("set", x=0, k=7), op("signal", cv=0), op(U, m=0), op("end")]
+s11_far = [op(L, m=1, d=2), op(R, x=1, cs=1), op(W, x=1, k=3, cs=1), op(U, m=1), op("end")]
+SCENARIOS["S11"] = dict(threads=[s11_main, s11_sleeper, s11_far], mutexes=2, condvars=1, vars=2, expect=[[0, 7], [0, 3]])
+
+QUICK = ["S9", "S10", "S11", "S1", "S3", "S4", "S5", "S6", "S7", "S8"]
+ALL = ["S9", "S10", "S11", "S1", "S2", "S3", "S4", "S5", "S6", "S7", "S8"]
 
 
 def tla_value(v):
